@@ -37,8 +37,8 @@ use crate::common::{block_on_system, CaseResult, Ctx, Rng};
 
 const RULE: &str = "case = history of tokens through one service instance of a fixed app (nested scopes with scoped \
 app_data, named/unnamed/guarded resources, default service, app-level middleware): R = request (method, uri, version, \
-peer (set, unset, or never mentioned by the builder), headers, request-level extensions; handler actions: insert typed extensions, stash clones, never complete), \
-D/V/E/C = drop / dump / extend / clone a stashed handle, X = drop the service; histories of 1..40 tokens plus long ones \
+peer (set, unset, or never mentioned by the builder), headers, request-level extensions; handler actions: insert typed extensions, stash clones, never complete, park while later requests run), \
+D/V/E/C = drop / dump / extend / clone a stashed handle, G = resume a parked handler, X = drop the service; histories of 1..40 tokens plus long ones \
 with >128 simultaneously live requests; a case is non-trivial if at least one request was served from a recycled \
 allocation (harness book-keeping of the pool); distinct = distinct (case, output) hashes";
 
@@ -72,6 +72,8 @@ enum Act {
     Ext(u32, u32),
     Stash(u32),
     Cancel,
+    /// park on gate n after the other actions
+    Park(u32),
 }
 
 #[derive(Default)]
@@ -82,6 +84,8 @@ struct Shared {
     ext_alive: Rc<Cell<isize>>,
     conn_alive: Rc<Cell<isize>>,
     app_alive: Rc<Cell<isize>>,
+    /// gates of parked handlers
+    parked: RefCell<BTreeMap<u32, tokio::sync::oneshot::Sender<()>>>,
 }
 
 fn insert_ext(req: &HttpRequest, alive: &Rc<Cell<isize>>, t: u32, v: u32) {
@@ -160,11 +164,23 @@ async fn handler(req: HttpRequest, sh: Rc<Shared>) -> HttpResponse {
                 drop(old);
             }
             Act::Cancel => cancel = true,
+            Act::Park(_) => {}
         }
     }
     if cancel {
         drop(req);
         std::future::pending::<()>().await;
+        unreachable!();
+    }
+    let park = acts.iter().find_map(|a| if let Act::Park(p) = a { Some(*p) } else { None });
+    if let Some(p) = park {
+        if !sh.parked.borrow().contains_key(&p) {
+            let (tx, rx) = tokio::sync::oneshot::channel();
+            sh.parked.borrow_mut().insert(p, tx);
+            // other requests are served while this handler waits
+            let _ = rx.await;
+            sh.dumps.borrow_mut().push(dump(&req));
+        }
     }
     HttpResponse::Ok().finish()
 }
@@ -246,6 +262,7 @@ enum Tok {
     V(u32),
     E(u32, u32, u32),
     C(u32, u32),
+    G(u32),
     X,
     Q(u32),
     M(String),
@@ -291,6 +308,9 @@ fn parse_act(s: &str) -> Option<Act> {
     if let Some(r) = s.strip_prefix('k') {
         return slot(r).map(Act::Stash);
     }
+    if let Some(r) = s.strip_prefix('p') {
+        return r.parse().ok().map(Act::Park);
+    }
     if let Some(r) = s.strip_prefix('e') {
         let p: Vec<&str> = r.split('=').collect();
         if p.len() == 2 {
@@ -328,6 +348,7 @@ fn parse_tok(t: &str) -> Tok {
                 Tok::E(slot(s)?, q[0].parse().ok()?, q[1].parse().ok()?)
             }
             ["C", s, s2] => Tok::C(slot(s)?, slot(s2)?),
+            ["G", n] => Tok::G(n.parse().ok()?),
             ["X"] => Tok::X,
             ["Q", c] => Tok::Q(c.parse().ok()?),
             _ => return None,
@@ -437,6 +458,7 @@ type Outs = Vec<(String, isize, isize, isize)>;
 async fn run_history_svc(toks: &[Tok]) -> Outs {
     let sh = Rc::new(Shared::default());
     let mut svc = Some(test::init_service(build_app(&sh)).await);
+    let mut tasks: BTreeMap<u32, actix_rt::task::JoinHandle<()>> = BTreeMap::new();
     let mut outs = Vec::with_capacity(toks.len());
     for tok in toks {
         let text = match tok {
@@ -447,10 +469,21 @@ async fn run_history_svc(toks: &[Tok]) -> Outs {
                     *sh.acts.borrow_mut() = r.acts.clone();
                     sh.dumps.borrow_mut().clear();
                     let mut fut: Pin<Box<dyn Future<Output = _>>> = Box::pin(s.call(req));
+                    let park = r.acts.iter().find_map(|a| if let Act::Park(p) = a { Some(*p) } else { None });
                     if r.acts.contains(&Act::Cancel) {
                         // poll once, then drop the service future while the handler is pending
                         let _ = std::future::poll_fn(|cx| Poll::Ready(fut.as_mut().poll(cx).is_ready())).await;
                         drop(fut);
+                    } else if let Some(p) = park.filter(|p| !sh.parked.borrow().contains_key(p)) {
+                        // run the request as its own task; it parks inside the handler
+                        let task = actix_rt::spawn(async move {
+                            let res = fut.await;
+                            drop(res);
+                        });
+                        while !sh.parked.borrow().contains_key(&p) && !task.is_finished() {
+                            tokio::task::yield_now().await;
+                        }
+                        tasks.insert(p, task);
                     } else {
                         let res = fut.await;
                         drop(res);
@@ -465,11 +498,28 @@ async fn run_history_svc(toks: &[Tok]) -> Outs {
                 "ok".to_owned()
             }
             Tok::Q(_) => "ok".to_owned(),
+            Tok::G(p) => {
+                let tx = sh.parked.borrow_mut().remove(p);
+                match (tx, tasks.remove(p)) {
+                    (Some(tx), Some(task)) => {
+                        sh.dumps.borrow_mut().clear();
+                        let _ = tx.send(());
+                        let _ = task.await;
+                        let d = sh.dumps.borrow().join("|");
+                        d
+                    }
+                    _ => "-".to_owned(),
+                }
+            }
             other => slot_token(&sh, other).unwrap(),
         };
         outs.push((text, sh.ext_alive.get(), sh.conn_alive.get(), sh.app_alive.get()));
     }
     // release everything before the runtime goes away
+    sh.parked.borrow_mut().clear();
+    for (_, t) in tasks {
+        let _ = t.await;
+    }
     sh.stash.borrow_mut().clear();
     drop(svc);
     outs
@@ -505,7 +555,7 @@ async fn run_history_h1(toks: &[Tok]) -> Outs {
     for tok in toks {
         let text = match tok {
             Tok::R(r) => match (&svc, r.conn) {
-                (Some(s), Some(c)) if !r.acts.contains(&Act::Cancel) && r.reqdata.is_empty() => {
+                (Some(s), Some(c)) if h1_supported(r) => {
                     if !conns.contains_key(&c) {
                         let (client, server) = tokio::io::duplex(1 << 16);
                         cur_conn.set(c);
@@ -553,6 +603,7 @@ async fn run_history_h1(toks: &[Tok]) -> Outs {
                 svc = None;
                 "ok".to_owned()
             }
+            Tok::G(_) => "-".to_owned(),
             Tok::Q(c) => {
                 if let Some(c) = conns.remove(c) {
                     close_conn(c).await;
@@ -569,6 +620,10 @@ async fn run_history_h1(toks: &[Tok]) -> Outs {
     }
     drop(svc);
     outs
+}
+
+fn h1_supported(r: &ReqTok) -> bool {
+    r.reqdata.is_empty() && !r.acts.iter().any(|a| matches!(a, Act::Cancel | Act::Park(_)))
 }
 
 fn is_h1(toks: &[Tok]) -> bool {
@@ -605,6 +660,7 @@ struct Book {
     reuse: bool,
     overflow: bool,
     outlive: bool,
+    parked: bool,
     max_live: usize,
 }
 
@@ -677,7 +733,7 @@ fn run(line: &str) -> CaseResult {
             match tok {
                 Tok::R(r)
                     if b.alive_svc
-                        && (!h1 || (r.conn.is_some() && !r.acts.contains(&Act::Cancel) && r.reqdata.is_empty())) =>
+                        && (!h1 || (r.conn.is_some() && h1_supported(r))) =>
                 {
                     let k = b.ext_types.len();
                     b.conn_of.push(if h1 { r.conn } else { None });
@@ -689,10 +745,19 @@ fn run(line: &str) -> CaseResult {
                         b.reuse = true;
                     }
                     b.ext_types.push(r.reqdata.iter().map(|e| e.0).filter(|t| (1..=3).contains(t)).collect());
+                    // a park action on an occupied gate is ignored: the projection must not park either
+                    let ptok = match r.acts.iter().find_map(|a| if let Act::Park(p) = a { Some(1000 + *p) } else { None }) {
+                        Some(p) if b.owner.contains_key(&p) => {
+                            let mut r2 = r.clone();
+                            r2.acts.retain(|a| !matches!(a, Act::Park(_)));
+                            Tok::R(r2)
+                        }
+                        _ => tok.clone(),
+                    };
                     b.proj.push(if h1 {
-                        vec![(Tok::M("h1".into()), None), (tok.clone(), Some(j))]
+                        vec![(Tok::M("h1".into()), None), (ptok, Some(j))]
                     } else {
-                        vec![(tok.clone(), Some(j))]
+                        vec![(ptok, Some(j))]
                     });
                     for a in &r.acts {
                         match a {
@@ -701,6 +766,16 @@ fn run(line: &str) -> CaseResult {
                             }
                             Act::Stash(s) => b.bind(*s, k, Some(k)),
                             _ => {}
+                        }
+                    }
+                    // a parked handler keeps its request alive in a pseudo slot until the gate opens
+                    if let (false, Some(p)) = (
+                        r.acts.contains(&Act::Cancel),
+                        r.acts.iter().find_map(|a| if let Act::Park(p) = a { Some(1000 + *p) } else { None }),
+                    ) {
+                        if !b.owner.contains_key(&p) {
+                            b.bind(p, k, Some(k));
+                            b.parked = true;
                         }
                     }
                     b.released(k);
@@ -719,6 +794,12 @@ fn run(line: &str) -> CaseResult {
                     }
                 }
                 Tok::R(_) => {}
+                Tok::G(p) => {
+                    if let Some(k) = b.owner.remove(&(1000 + *p)) {
+                        b.proj[k].push((tok.clone(), Some(j)));
+                        b.released(k);
+                    }
+                }
                 Tok::D(s) => {
                     if let Some(k) = b.owner.remove(s) {
                         b.proj[k].push((tok.clone(), Some(j)));
@@ -823,6 +904,9 @@ fn run(line: &str) -> CaseResult {
     if !book.alive_svc {
         tags.push("service-dropped".to_owned());
     }
+    if book.parked {
+        tags.push("parked-handler".to_owned());
+    }
     if toks.iter().any(|t| matches!(t, Tok::R(r) if r.acts.contains(&Act::Cancel))) {
         tags.push("cancelled".to_owned());
     }
@@ -905,7 +989,14 @@ fn gen_req(rng: &mut Rng, slots: u32) -> String {
     for _ in 0..rng.below(4) {
         match rng.below(5) {
             0 | 1 => acts.push(format!("e{}={}", rng.range(1, 3), rng.below(10))),
-            2 | 3 => acts.push(format!("k{}", rng.range(1, slots as usize))),
+            2 => acts.push(format!("k{}", rng.range(1, slots as usize))),
+            3 => {
+                if rng.chance(1, 2) {
+                    acts.push(format!("p{}", rng.range(1, 2)))
+                } else {
+                    acts.push(format!("k{}", rng.range(1, slots as usize)))
+                }
+            }
             _ => {
                 if rng.chance(1, 3) {
                     acts.push("x".to_owned())
@@ -927,12 +1018,12 @@ fn gen_history(rng: &mut Rng, n: usize, slots: u32) -> String {
             14..=15 => format!("V:{s}"),
             16 => format!("E:{s}:{}={}", rng.range(1, 3), rng.below(10)),
             17 => format!("C:{s}:{}", rng.range(1, slots as usize)),
-            18 => format!("V:{s}"),
+            18 => format!("G:{}", rng.range(1, 2)),
             _ => {
                 if rng.chance(1, 6) {
                     "X".to_owned()
                 } else {
-                    format!("D:{s}")
+                    format!("G:{}", rng.range(1, 2))
                 }
             }
         });
@@ -949,7 +1040,7 @@ fn gen_overflow(rng: &mut Rng) -> String {
         // force exactly one stash into slot s
         let idx = r.rfind(':').unwrap();
         let acts: Vec<String> =
-            r[idx + 1..].split(',').filter(|a| !a.starts_with('k') && *a != "x" && *a != "-").map(|a| a.to_owned()).collect();
+            r[idx + 1..].split(',').filter(|a| !a.starts_with('k') && !a.starts_with('p') && *a != "x" && *a != "-").map(|a| a.to_owned()).collect();
         r.truncate(idx + 1);
         let mut acts = acts;
         acts.push(format!("k{s}"));
@@ -991,7 +1082,7 @@ fn gen_h1(rng: &mut Rng, n: usize, slots: u32) -> String {
                 let r = gen_req(rng, slots);
                 // R:<conn>:<method>:<uri>:<ver>:<peer>:<hdrs>:<reqdata>:<acts>
                 let p: Vec<&str> = r.split(':').collect();
-                let acts: Vec<&str> = p[8].split(',').filter(|a| *a != "x" && *a != "-").collect();
+                let acts: Vec<&str> = p[8].split(',').filter(|a| *a != "x" && *a != "-" && !a.starts_with('p')).collect();
                 let peer = if c % 2 == 1 { (2000 + c).to_string() } else { "-".to_owned() };
                 format!(
                     "R:{c}:{}:{}:11:{peer}:{}:-:{}",
